@@ -136,6 +136,7 @@ def run(ctx):
     ctx.oblig("direct oracle: Spec.sd_split fl_exec (implementation line) = intended vector on every generated vector",
               not [f for f in ctx.failures if f.get("class") is None], "%d failures" % len(ctx.failures))
     end_to_end(ctx)
+    all_exec_lines(ctx)
 
 
 def dq(s):
@@ -203,6 +204,80 @@ def end_to_end(ctx):
             okc += 1
     ctx.oblig("direct oracle (generator clause): ExecStart of %d converted container units splits into the intended argv" % len(idx),
               okc == len(idx) and len(idx) > 0, "%d of %d" % (okc, len(idx)))
+
+
+def all_exec_lines(ctx):
+    """generator clause, every Exec* line of kube / container / pod units: each splits (by the spec) into the intended argv"""
+    rng = ctx.rng
+    def word():
+        w = vlib.adv_string(rng, 4).replace("\0", "")
+        return w if w and w.strip(" \t\n\r") == w and not w.startswith("-") else "g" + w.strip() + "x"
+    cases, meta = [], []
+    for i in range(ctx.volume(300, 4000)):
+        gargs = [word() for _ in range(rng.randint(0, 2))]
+        gline = ("GlobalArgs=%s\n" % " ".join(dq(g) for g in gargs)) if gargs else ""
+        kind = rng.choice(["kube", "container", "pod"])
+        if kind == "kube":
+            y = "/" + word().replace("/", "_").replace(".", "_") + ".yml"
+            force = rng.choice([None, "yes", "no"])
+            unit = "[Kube]\nYaml=%s\n%s%s" % (dq(y), gline, ("KubeDownForce=%s\n" % force) if force else "")
+            meta.append((kind, gargs, y, force))
+        elif kind == "container":
+            unit = "[Container]\nImage=img\n%s" % gline
+            meta.append((kind, gargs, None, None))
+        else:
+            nm = word()
+            unit = "[Pod]\nPodName=%s\n%s" % (dq(nm), gline)
+            meta.append((kind, gargs, nm, None))
+        cases.append(case_line("convert", "0", "/u/e%d.%s" % (i, kind), unit))
+    outs = vlib.run_impl(cases)
+    lines, where = [], []
+    recs = [vlib.parse_convert(o) for o in outs]
+    for i, rs in enumerate(recs):
+        r = rs[0] if rs else {}
+        if not r.get("ok"):
+            continue
+        for k in ("ExecStart", "ExecStartPre", "ExecStop", "ExecStopPost"):
+            for v in vlib.entries(r, "Service", k):
+                lines.append(v.encode()); where.append((i, k))
+    argvs = vlib.sd_split_many(lines) if lines else []
+    per = {}
+    for (i, k), a in zip(where, argvs):
+        per.setdefault(i, {}).setdefault(k, []).append(a)
+    bad_n = 0
+    for i, d in per.items():
+        kind, gargs, x, force = meta[i]
+        base = ["/usr/bin/podman"] + gargs
+        ctx.evaluations += 1
+        ctx.count("e2e_exec_lines:" + kind)
+        ctx.nontrivial.add(cases[i])
+        bad = None
+        get = lambda k: (d.get(k) or [None])[-1]
+        if any(a is None for v in d.values() for a in v):
+            bad = "an Exec line does not split by systemd's rules: %s" % {k: v for k, v in d.items()}
+        elif kind == "kube":
+            want_start_tail, stop = [x], base + ["kube", "down"] + ({"yes": ["--force"], "no": ["--force=false"], None: []}[force]) + [x]
+            if get("ExecStart")[:len(base) + 2] != base + ["kube", "play"] or get("ExecStart")[-1:] != want_start_tail:
+                bad = "ExecStart %s: expected %s ... %s" % (get("ExecStart"), base + ["kube", "play"], x)
+            elif get("ExecStopPost") != stop:
+                bad = "ExecStopPost splits into %s, intended %s" % (get("ExecStopPost"), stop)
+        elif kind == "container":
+            stop = base + ["rm", "-v", "-f", "-i", "--cidfile=%t/%N.cid"]
+            if get("ExecStart")[:len(base) + 1] != base + ["run"]:
+                bad = "ExecStart %s does not begin with %s" % (get("ExecStart"), base + ["run"])
+            elif get("ExecStop") != stop or get("ExecStopPost") != ["-" + stop[0]] + stop[1:]:
+                bad = "ExecStop/ExecStopPost split into %s / %s, intended %s" % (get("ExecStop"), get("ExecStopPost"), stop)
+        else:
+            if get("ExecStart") != base + ["pod", "start", "--pod-id-file=%t/%N.pod-id"] or get("ExecStop")[:len(base) + 2] != base + ["pod", "stop"] \
+                    or get("ExecStopPost")[:len(base) + 2] != base + ["pod", "rm"]:
+                bad = "pod ExecStart/ExecStop/ExecStopPost: %s" % d
+            elif get("ExecStartPre")[:len(base) + 2] != base + ["pod", "create"] or get("ExecStartPre")[-4:] != ["--infra-name", x + "-infra", "--name", x]:
+                bad = "ExecStartPre %s: expected ... --infra-name %s-infra --name %s" % (get("ExecStartPre"), x, x)
+        if bad:
+            bad_n += 1
+            ctx.failures.append({"op": "convert", "unit": show(unhx(cases[i].split("\t")[3])), "case_hex": cases[i], "what": bad, "class": None})
+    ctx.oblig("direct oracle (generator clause): every Exec* line of %d converted kube / container / pod units splits into the intended argv" % len(per),
+              bad_n == 0 and len(per) > 0, "%d of %d" % (bad_n, len(per)))
 
 
 def replay(ctx, obj):
